@@ -163,6 +163,29 @@ type RunSpec struct {
 	KeepLog       bool            `json:"keepLog,omitempty"`
 	Dump          bool            `json:"dump,omitempty"` // reference pass: record segment geometry and wire bytes
 	Attack        *Attack         `json:"attack,omitempty"`
+	Hist          *History        `json:"hist,omitempty"`
+}
+
+// History is an operation history against one component under the virtual
+// clock, checked step by step against a small reference model.
+type History struct {
+	Kind       string `json:"kind"` // "replaycache" | "counter" | "keycache"
+	Cap        int    `json:"cap,omitempty"`
+	IntervalUs int64  `json:"intervalUs,omitempty"`
+	Ops        []HOp  `json:"ops"`
+}
+
+type HOp struct {
+	Op      string `json:"op"` // sleep | dup | add | load | window | dump | reload | restart | lookup
+	SleepUs int64  `json:"sleepUs,omitempty"`
+	Item    int    `json:"item,omitempty"`
+	Tag     int    `json:"tag,omitempty"`
+	Delta   int64  `json:"delta,omitempty"`
+	FromUs  int64  `json:"fromUs,omitempty"` // window: t1 = now - FromUs
+	ToUs    int64  `json:"toUs,omitempty"`   // window: t2 = now - ToUs
+	Count   int    `json:"count,omitempty"`  // repeat count (bursts)
+	AtUs    int64  `json:"atUs,omitempty"`   // keycache: explicit instant (relative to run start)
+	Cut     int    `json:"cut,omitempty"`    // reload: truncate the dump file to this many bytes first (0 = intact)
 }
 
 // Attack describes attacker actors that run beside the genuine workload.
